@@ -18,7 +18,11 @@ RULE = ("case = a byte stream (grammar-generated hostile stream, tests/requests 
         "(operation index, fault in {EOF, ECONNRESET, EPIPE, ENOTCONN}) - exhaustive over crash points of that workload - "
         "plus client half-close at seeded (thorough: all) offsets; after each run a second, valid connection goes to the "
         "same worker object.  evaluations counts cases; fault_fire_counts counts the enumerated runs.  distinct = "
-        "distinct (stream, family, cfg) by hash; non-trivial = the fault-free pass performs >= 2 I/O operations")
+        "distinct (stream, family, cfg) by hash; non-trivial = the fault-free pass performs >= 2 I/O operations.  A sixth of the cases form "
+        "the family 'loop' (kernel world, isolated child): the real run loop of a sync / gthread / gevent / eventlet worker process receives 1-3 "
+        "hostile connections (stream sent whole, cut or in two parts; then half-close, close or reset) followed by two valid clients: the process "
+        "must survive, the valid clients must be served, the application may be called at most once per request the real parser yields, and a "
+        "half-closed client sees at most one well-formed error page marked Connection: close and then end-of-file")
 ASSUMPTIONS = [
     "'rejected' is gunicorn's own decision at head-parse time: the application call count must not exceed the number of "
     "requests the real RequestParser yields for the same bytes; errors raised while the application is already reading a "
@@ -30,7 +34,9 @@ COMPONENTS = {"real": ["SyncWorker.handle/handle_request", "ThreadWorker.handle/
                        "Worker.handle_error", "util.write_error/write_nonblock", "gunicorn.http.*", "gunicorn.http.wsgi",
                        "glogging.Logger"],
               "stub": ["peer + network (SimSock)", "application (generated)", "gthread poller/executor (W2 connection driver)",
-                       "async timeout context", "WorkerTmp"]}
+                       "async timeout context", "WorkerTmp"],
+              "real_in_family_loop": ["SyncWorker.run", "ThreadWorker.run + handler threads", "GeventWorker.run (gevent shim)",
+                                      "EventletWorker.run (eventlet shim)", "WorkerTmp", "simulated kernel sockets"]}
 
 FAULTS = ["EOF", "ECONNRESET", "EPIPE", "ENOTCONN"]
 PROG = [{"status": "200 OK", "headers": [["Content-Type", "text/plain"], ["Content-Length", "2"]], "kind": "iter",
@@ -53,7 +59,146 @@ def corpus():
     return _CORPUS
 
 
+def make_loop_case(index, rng, tier):
+    cp = corpus()
+    hostile = []
+    t = 0.2
+    for _ in range(rng.randrange(1, 4)):
+        k = rng.randrange(4)
+        if k == 0:
+            data = rng.choice(cp)
+        elif k == 1:
+            m = bytearray(rng.choice(httpgen.CANONICAL))
+            for _ in range(rng.randrange(1, 4)):
+                i = rng.randrange(len(m))
+                m[i:i + rng.randrange(0, 2)] = httpgen.odd(rng)
+            data = bytes(m)
+        elif k == 2:
+            data = httpgen.rbytes(rng, rng.randrange(1, 120))
+        else:
+            data = b"".join(httpgen.gen_stream(rng, 2, hostile=True))
+        data = data[:3000]
+        cut = rng.randrange(0, len(data) + 1) if rng.randrange(3) == 0 else len(data)
+        hostile.append({"data": b2j(data[:cut]), "end": rng.choice(["half-close", "half-close", "close", "reset"]), "t": round(t, 2),
+                        "split": rng.randrange(1, max(2, cut)) if cut > 1 and rng.randrange(3) == 0 else None})
+        t += rng.uniform(0.05, 1.0)
+    return {"family": "loop", "kind": rng.choice(["sync", "gthread", "gevent", "eventlet"]), "keepalive": rng.choice([0, 1, 2]),
+            "threads": rng.randrange(1, 3), "hostile": hostile, "cfg": rng.choice([{}, {}, {"limit_request_line": 64}, {"limit_request_fields": 3}]),
+            "buggify": {"pyticks": rng.randrange(3) == 0, "short_recv": rng.randrange(3) == 0}}
+
+
+class _LoopMod:
+    CASE_WALL_S = 60.0
+    ISOLATE = True
+
+    @staticmethod
+    def run(case, choices):
+        return run_loop(case, choices)
+
+
+def run_loop(case, choices):
+    """The real worker loop (all four classes) on the simulated kernel: hostile connections, then valid ones."""
+    import signal as _signal
+    from simkit.kernel import Sim
+    from simkit import preempt
+    from worlds import worker as W
+    res = Result()
+    # what the real parser makes of each hostile stream (before the kernel seams are installed: Config() outside a simulated process)
+    pcfg = stream_cfg(**case["cfg"])
+    parsed = [observe(pcfg, j2b(h["data"]), ())[0] for h in case["hostile"]]
+    sim = Sim(choices, max_steps=200000, max_time=200.0)
+    sim.buggify = dict(case["buggify"])
+    if case["buggify"].get("pyticks"):
+        preempt.enable()
+        sim.py_ticks = True
+    kind = case["kind"]
+    cfgd = {"timeout": 30, "graceful_timeout": 2, "keepalive": case["keepalive"], "threads": case["threads"], "worker_connections": 10}
+    cfgd.update(case["cfg"])
+    w = W.WorkerWorld(sim, kind, cfgd)
+    p = w.start_worker()
+    hostile = []
+    for i, h in enumerate(case["hostile"]):
+        data = j2b(h["data"]).decode("latin-1")
+        ops = [["wait", h["t"]], ["connect"]]
+        if h.get("split") and h["split"] < len(data):
+            ops += [["send", data[:h["split"]]], ["wait", 0.05], ["send", data[h["split"]:]]]
+        elif data:
+            ops.append(["send", data])
+        if h["end"] == "half-close":
+            ops += [["shutdown-wr"], ["await-eof", 8.0 + case["keepalive"]]]
+        elif h["end"] == "close":
+            ops.append(["close"])
+        else:
+            ops.append(["reset"])
+        hostile.append(w.add_client("h%d" % i, ops))
+    t_f = max(h["t"] for h in case["hostile"]) + 1.0
+    finals = [w.add_client("f%d" % i, [["wait", round(t_f + 0.4 * i, 2)], ["connect"],
+                                       ["send", "GET /a HTTP/1.1\r\nHost: f\r\nConnection: close\r\n\r\n"], ["recv", 20.0]]) for i in range(2)]
+    ctx = lambda: "family=loop kind=%s keepalive=%s threads=%s cfg=%r hostile=%r t=%.2f" % (
+        kind, case["keepalive"], case["threads"], case["cfg"],
+        [(bsafe(j2b(h["data"]), 80), h["end"], h["t"], h.get("split")) for h in case["hostile"]], sim.now)
+    try:
+        sim.run(until=lambda: sim.now > 60.0 or p.state != "running" or all(c.done for c in hostile + finals))
+        if sim.crash:
+            from simkit.core import HarnessError
+            raise HarnessError(sim.crash)
+        for name, tb in sim.escaped:
+            res.violate("C05:loop:%s:exception-escaped" % kind, "an exception escaped %s: %s; %s" % (name, tb[-400:], ctx()))
+        if p.state != "running":
+            res.violate("C05:loop:%s:worker-died" % kind, "the worker process exited (wait status %r) while serving hostile connections; "
+                        "boot_error=%r; %s" % (p.status, (w.boot_error or "")[-300:], ctx()))
+        for c in finals:
+            ok = c.responses and c.responses[0]["status"] == 200 and c.responses[0]["complete"]
+            if not ok and p.state == "running":
+                res.violate("C05:loop:%s:follow-up-not-served" % kind, "after the hostile connections the valid client %s was not served: %r; "
+                            "log=%r; %s" % (c.name, [(r["status"], r["complete"]) for r in c.responses], c.log[-4:], ctx()))
+        allowed = len(finals)
+        for c, h, obs in zip(hostile, case["hostile"], parsed):
+            allowed += len(obs)
+            if h["end"] != "half-close" or c.stream is None:
+                continue
+            st = c.stream
+            wire = bytes(st.rbuf)
+            if not (st.eof or st.rst) and p.state == "running":
+                res.violate("C05:loop:%s:not-closed" % kind, "client %s half-closed after its bytes; %.1f s later the server has still not closed "
+                            "the connection; wire=%s; %s" % (c.name, 8.0 + case["keepalive"], bsafe(wire, 120), ctx()))
+            reqs = [{"method": o.get("method", "GET")} for o in obs] + [{"method": "GET"}] * 2
+            resps, probs, rest = resp_ref.parse(wire, reqs)
+            errs = [r for r in resps if r["code"] is not None and _is_error_page(r)]
+            if len(errs) > 1:
+                res.violate("C05:loop:%s:two-error-pages" % kind, "client %s: more than one error response; wire=%s; %s" % (c.name, bsafe(wire, 200), ctx()))
+            for i, r in enumerate(resps):
+                if r["code"] is not None and _is_error_page(r):
+                    hs = {n: v for n, v, _ in r["headers"]}
+                    if hs.get(b"connection", b"").lower() != b"close":
+                        res.violate("C05:loop:%s:error-page:not-connection-close" % kind, "client %s; wire=%s; %s" % (c.name, bsafe(wire, 200), ctx()))
+                    if i != len(resps) - 1 or rest:
+                        res.violate("C05:loop:%s:bytes-after-error-page" % kind, "client %s; wire=%s; %s" % (c.name, bsafe(wire, 200), ctx()))
+                    if r["framing"] != "length" or r["complete"] is not True:
+                        res.violate("C05:loop:%s:error-page:bad-length" % kind, "client %s; wire=%s; %s" % (c.name, bsafe(wire, 200), ctx()))
+        if w.apphost.app_calls > allowed:
+            res.violate("C05:loop:%s:app-called-for-rejected" % kind, "the application was called %d times; the hostile streams parse into %d "
+                        "requests in all, plus %d valid clients; %s" % (w.apphost.app_calls, allowed - len(finals), len(finals), ctx()))
+        res.nontrivial = True
+        res.sim_s = sim.now
+        res.faults.update(sim.faults)
+        for h in case["hostile"]:
+            res.faults["client_" + h["end"]] += 1
+        res.probes.update(sim.probes)
+        res.probes["real_loop:" + kind] += 1
+        res.states.add(h64("loop", kind, len(case["hostile"]), w.apphost.app_calls, p.state))
+        res.from_log(sim.log)
+        res.shape = h64("loop", kind, case["hostile"], case["keepalive"], case["threads"])
+        res.sample = {"family": "loop", "kind": kind, "hostile": [(bsafe(j2b(h["data"]), 60), h["end"]) for h in case["hostile"]],
+                      "app_calls": w.apphost.app_calls, "finals": [[(r["status"], r["complete"]) for r in c.responses] for c in finals]}
+    finally:
+        sim.shutdown()
+    return res
+
+
 def make_case(index, rng, tier):
+    if index % 6 == 5:
+        return make_loop_case(index, rng, tier)
     cp = corpus()
     k = index % 5
     if index < 3 * len(cp):
@@ -168,6 +313,15 @@ def one_run(res, log, case, data, cuts, fault_at, fault_kind, yielded, label):
 
 
 def run(case, choices):
+    if case.get("family") == "loop":
+        # a kernel-world run inside this connection-world check: isolated in a forked child like every W3/W4 run
+        from simkit import runner
+        from simkit.core import HarnessError
+        r, err, chlog = runner.run_isolated(_LoopMod, case, choices)
+        choices.log[:] = chlog
+        if r is None:
+            raise HarnessError(err or "isolated loop run failed")
+        return r
     res = Result()
     log = EventLog()
     data = b"".join(j2b(m) for m in case["msgs"])
@@ -209,6 +363,18 @@ def run(case, choices):
 
 
 def shrink(case):
+    if case.get("family") == "loop":
+        hs = case["hostile"]
+        for i in range(len(hs)):
+            if len(hs) > 1:
+                yield dict(case, hostile=hs[:i] + hs[i + 1:])
+        for i, h in enumerate(hs):
+            if h.get("split"):
+                yield dict(case, hostile=hs[:i] + [dict(h, split=None)] + hs[i + 1:])
+        for k, v in case["buggify"].items():
+            if v:
+                yield dict(case, buggify=dict(case["buggify"], **{k: False}))
+        return
     msgs = [j2b(m) for m in case["msgs"]]
     for cand in httpgen.shrink_stream(msgs):
         yield dict(case, msgs=[b2j(m) for m in cand])
